@@ -187,7 +187,10 @@ def fromdicts(dicts, header=None, sample=1000, missing=None):
     instead of `itertools.tee` due to high memory usage.
 
     """
-    view = DictsGeneratorView if inspect.isgenerator(dicts) else DictsView
+    # any one-shot iterator (a generator, a map object, iter(...)) can be read
+    # only once and needs the cache
+    one_shot = inspect.isgenerator(dicts) or iter(dicts) is dicts
+    view = DictsGeneratorView if one_shot else DictsView
     return view(dicts, header=header, sample=sample, missing=missing)
 
 
